@@ -417,7 +417,8 @@ PROPS = {
     },
     "C18": {
         "required_theorems": ["c18_alias", "c18_no_leak_success", "c18_no_leak_second_fails", "c18_no_leak_first_fails",
-                              "c18_elem_size_refused", "c18_churn", "c18_setup_refused"],
+                              "c18_elem_size_refused", "c18_churn", "c18_setup_refused", "c18_touches_only_own",
+                              "c18_own_only_witnesses"],
         "pre_cmd": ["python3", "tools/vmtrace.py"],
         "runs": [
             {"sub": "vm", "quick": ["--seed", "{seed}", "--cycles", 2000],
